@@ -147,7 +147,8 @@ def mkrec(rec_sr, te=1.0):
 
 
 def tk(k):
-    return data.term_from_key(k)
+    # built here, not through data.term_from_key: expected values must not depend on library-side caches
+    return data.Term(label=k, name="soundevent:%s" % k, definition="Unknown")
 
 
 TERM_TM = data.Term(name="verif:mapped", label="Mapped term", definition="term handed in through term_mapping")
@@ -161,7 +162,7 @@ def abs_term(term):
         if term == t:
             return ["term", name]
     try:
-        if term == data.term_from_key(term.label):
+        if term == tk(term.label):
             return ["key", term.label]
     except Exception:  # noqa
         pass
@@ -450,7 +451,7 @@ def cascade_kwargs(label, o):
         real["key_mapping"] = dict(m)
     if o["key"] == "given":
         # two explicit keys that differ only in letter case occur in the same run (a key is case sensitive)
-        real["key"] = mod["key"] = "KK" if o["fallback"] == "custom" else "kk"
+        real["key"] = mod["key"] = "KK" if o["term_mapping"] != "absent" else "kk"
     if o["term"] == "given":
         real["term"] = TERM_EX
         mod["term"] = A_TERM_EX
